@@ -604,6 +604,8 @@ class MathExpression(object):
         if bad_vars:
             message = "Invalid Input: '{}' not permitted in answer as a variable"
             varnames = "', '".join(sorted(bad_vars))
+            # Format now: names suggested below may contain braces (e.g., a_{1})
+            message = message.format(varnames)
 
             # Check to see if there is a different case version of the variable
             caselist = set()
@@ -615,12 +617,14 @@ class MathExpression(object):
                 betternames = "', '".join(sorted(caselist))
                 message += " (did you mean '" + betternames + "'?)"
 
-            raise UndefinedVariable(message.format(varnames))
+            raise UndefinedVariable(message)
 
         bad_funcs = set(func for func in self.functions_used if func not in functions)
         if bad_funcs:
             funcnames = "', '".join(sorted(bad_funcs))
             message = "Invalid Input: '{}' not permitted in answer as a function"
+            # Format now: names suggested below may contain braces (e.g., f_{1})
+            message = message.format(funcnames)
 
             # Check to see if there is a corresponding variable name
             if any(func in variables for func in bad_funcs):
@@ -636,7 +640,7 @@ class MathExpression(object):
                 betternames = "', '".join(sorted(caselist))
                 message += " (did you mean '" + betternames + "'?)"
 
-            raise UndefinedFunction(message.format(funcnames))
+            raise UndefinedFunction(message)
 
         bad_suffixes = set(suff for suff in self.suffixes_used if suff not in suffixes)
         if bad_suffixes:
